@@ -13,7 +13,7 @@ from contracts.c_handlers import closure, TGC, SLOWEST
 # pairs that cannot be compared this way, with the reason (reported in the evidence as assumptions that stay)
 NOT_COMPARABLE = {
     "workers.workers.WorkerPool.can_accomodate_strategy": "the abstract contract used by the greedy policies speaks about a ghost occupancy version of the pool ($ver) that no real field carries: 'the answer is a function of (version, strategy), and only place_task / remove_task / step move the version'; the body contract speaks about the workers' ledgers",
-    "workers.workers.WorkerPool.place_task": "abstract contract over the ghost occupancy version ($ver, $last_task, $last_strategy), see can_accomodate_strategy",
+    "workers.workers.WorkerPool.place_task": "abstract contract over the ghost occupancy version ($ver, $last_task, $last_strategy), see can_accomodate_strategy; its frame names the ghost fields only, not the ledgers place_task#body writes (the policies plan on copies of the pools, and the ledger effect is the subject of C04 / C01, decided on place_task#body itself)",
     "workload.workload.Workload.get_schedulable_tasks": "the abstract contract used by the greedy policies adds the assumed Task representation invariant of the offered tasks (section 0.5) and does not list the exceptions of the graph traversal (ValueError / RuntimeError / AttributeError): 'returns normally' (C10) is decided by the bounded stand-ins",
 }
 
